@@ -74,7 +74,7 @@ var c31OpPool [LogicVersion + 1][3][]OpSpec // [version][mode index] -> generic 
 var c31SkipGeneric = map[string]bool{
 	"intcblock": true, "bytecblock": true, "pushbytes": true, "pushint": true, "pushbytess": true, "pushints": true,
 	"bnz": true, "bz": true, "b": true, "callsub": true, "retsub": true, "proto": true, "switch": true, "match": true,
-	"err": true, "return": true, "frame_dig": true, "frame_bury": true,
+	"err": true, "return": true,
 }
 
 func c31ModeIdx(m RunMode) int {
@@ -886,6 +886,9 @@ func (b *c31Builder) generic(s *OpSpec, given int) bool {
 			if r.Chance(2, 3) {
 				v = byte(r.Intn(4))
 			}
+			if im.kind == immInt8 {
+				v = byte(int8([]int{-1, -2, -3, -4, -128, -127, 0, 1, 2, 127, r.Intn(256) - 128}[r.Intn(11)]))
+			}
 			if im.Group != nil {
 				f := c31Fields(im.Group, b.v)
 				if len(f) > 0 && r.Chance(15, 16) {
@@ -1065,6 +1068,8 @@ func (b *c31Builder) subroutine() {
 			a, rt = byte(r.Intn(256)), byte(r.Intn(256))
 		}
 		b.op("proto", a, rt)
+	}
+	if b.has("frame_dig") {
 		for i := 0; i < r.Intn(4); i++ {
 			off := []int{-1, -2, -nargs, -nargs - 1, 0, 1, -128, 127, r.Intn(256) - 128}[r.Intn(9)]
 			if r.Bool() {
